@@ -434,7 +434,7 @@ def r08_4(ctx, rep, roles):
         eng = sym.Engine(fx, no_inline={roles.builder_finish["id"]}, inline_only=set(getattr(fx, "new_helpers", ())))
         okc = False
         desc = None
-        for row in eng.table(cs.caller):
+        for row in eng.table(cs.real_caller):
             for e in row.calls():
                 if e[1] == roles.builder_finish["id"]:
                     a = T.resolve_locals(eng, row.store, e[2][1])
